@@ -515,6 +515,10 @@ class Check:
             o = outs[i]
             fk = m.finding_key(o) if hasattr(m, "finding_key") else None
             hit = next((e for e in known if fk is not None and e["key"] == fk), None)
+            if hit and hit.get("model_reproduces") and i in set(mism):
+                # the recorded finding is a behaviour the model of the code AS WRITTEN predicts step by step; on this input the
+                # implementation no longer does what that model says, so this is not the recorded failure but a different one
+                hit = None
             if hit:
                 if fk not in reported_keys:
                     reported_keys.add(fk)
@@ -526,8 +530,9 @@ class Check:
             path = write_replay(self.pid, self.seed, "input", dict(case=o, finding_key=fk,
                                 what="the property predicate (%s) is false on what the implementation returned for this input" % m.SPEC))
             self.violations.append((path, ""))
-        if not viol or all((m.finding_key(outs[i]) if hasattr(m, "finding_key") else None) in
-                           {e["key"] for e in known} for i in viol):
+        concrete = any(sfx == "" for (_, sfx) in self.violations)
+        if not concrete and (not viol or all((m.finding_key(outs[i]) if hasattr(m, "finding_key") else None) in
+                                             {e["key"] for e in known} for i in viol)):
             only_mism = [i for i in mism if i not in set(viol)]
             if only_mism:
                 o = outs[only_mism[0]]
